@@ -54,7 +54,7 @@ def splitT (trees : Nat → SplitTree) (withinTol : Int → Int → Bool) (coord
     Nat → Nat → Int → Int → Option Nat → Bool → Res (SplitOut Int)
   | 0, _, _, _, _, _ => .fuel
   | fuel + 1, it, min, max, prev, moved =>
-    let t := Coord.half (Coord.add min max)
+    let t := Coord.mid min max
     let s := scanT (trees it) items coord t
     match s.nearest with
     | none =>
@@ -452,10 +452,10 @@ theorem splitT_perm (hexact : DistExact) (trees trees' : Nat → SplitTree) (wt 
   | succ fuel ih =>
     intro it mn mx prev mv
     simp only [splitT]
-    have hs := scanT_spec (trees it) items coord (Coord.half (Coord.add mn mx))
-    have hs' := scanT_spec (trees' it) items' coord (Coord.half (Coord.add mn mx))
-    generalize scanT (trees it) items coord (Coord.half (Coord.add mn mx)) = s at hs ⊢
-    generalize scanT (trees' it) items' coord (Coord.half (Coord.add mn mx)) = s' at hs' ⊢
+    have hs := scanT_spec (trees it) items coord (Coord.mid mn mx)
+    have hs' := scanT_spec (trees' it) items' coord (Coord.mid mn mx)
+    generalize scanT (trees it) items coord (Coord.mid mn mx) = s at hs ⊢
+    generalize scanT (trees' it) items' coord (Coord.mid mn mx) = s' at hs' ⊢
     obtain ⟨hc, hw, hn, hd⟩ := scanSpec_perm hp hs hs'
     obtain ⟨c, w, n⟩ := s
     obtain ⟨c', w', n'⟩ := s'
@@ -651,7 +651,7 @@ theorem splitT_leaf (wt : Int → Int → Bool) (coord : Nat) (sum : Int) (items
   | succ fuel ih =>
     intro it mn mx prev mv
     simp only [splitT, split, scanT_leaf, ih]
-    generalize scan items coord (Coord.half (Coord.add mn mx)) = s
+    generalize scan items coord (Coord.mid mn mx) = s
     obtain ⟨c, w, n⟩ := s
     cases n with
     | none => rfl
